@@ -15,7 +15,7 @@ from vlib.props import c18
 LEVEL = "exploration"
 RULE = ("Every synthetic Stack tree of the C18 space (all context-field combinations x inner stacks x child sets; structural trees "
         "up to depth D) and real stacks extracted from every E1 program of AST size <= 3 (all suspension points) and every E2 chain "
-        "of length <= 2, x show_contexts x show_hidden_frames x capture_locals: as_stdlib_summary() must equal an independent "
+        "of length <= 2, x show_contexts x show_hidden_frames x capture_locals (and, for every stack with >= 2 frames, every real stack and every 7th tree, under sys.tracebacklimit in {unset, 0, 1, -1}): as_stdlib_summary() must equal an independent "
         "transcription (one FrameSummary per visible frame with filename/lineno/name/line/locals; with contexts: an entry at the "
         "with-line per visible context, then its inner stack, then its child contexts; the frame's own entry omitted iff its last "
         "context is exiting); the summary pickles and round-trips equal; no frame object is reachable from it; format_flat() is the "
@@ -102,7 +102,33 @@ def reaches_frame(obj):
     return False
 
 
-def check(st, problems):
+def check(st, problems, limits=(None,)):
+    """limits: values of the interpreter-wide sys.tracebacklimit under which the projection is taken; it must not matter."""
+    import sys
+    n = 0
+    had = hasattr(sys, "tracebacklimit")
+    old = getattr(sys, "tracebacklimit", None)
+    try:
+        for lim in limits:
+            if lim is None:
+                if hasattr(sys, "tracebacklimit"):
+                    del sys.tracebacklimit
+            else:
+                sys.tracebacklimit = lim
+            before = len(problems)
+            n += check_once(st, problems)
+            if lim is not None:
+                for i in range(before, len(problems)):
+                    problems[i] = "[sys.tracebacklimit=%r] %s" % (lim, problems[i])
+    finally:
+        if had:
+            sys.tracebacklimit = old
+        elif hasattr(sys, "tracebacklimit"):
+            del sys.tracebacklimit
+    return n
+
+
+def check_once(st, problems):
     n = 0
     for sc, sh, cl in itertools.product((False, True), repeat=3):
         n += 1
@@ -210,7 +236,7 @@ def run(ctx):
             continue
         st = c18.mk_stack(spec)
         problems = []
-        n = check(st, problems)
+        n = check(st, problems, (None, 0, 1, -1) if idx % 7 == 0 or len(spec.get("frames", [])) >= 2 else (None,))
         ctx.count("evaluations", n)
         ctx.count("distinct_nontrivial")
         ctx.count("synthetic_trees")
@@ -223,7 +249,7 @@ def run(ctx):
         if not ctx.mine(idx):
             continue
         problems = []
-        n = check(st, problems)
+        n = check(st, problems, (None, 0, 1, -1))
         ctx.count("evaluations", n)
         ctx.count("distinct_nontrivial")
         ctx.count("real_stacks")
@@ -237,11 +263,11 @@ def replay(case):
     c18.world()
     problems = []
     if case.get("leg") == "tree":
-        check(c18.mk_stack(case["spec"]), problems)
+        check(c18.mk_stack(case["spec"]), problems, (None, 0, 1, -1))
     else:
         for c, st in real_stacks("quick"):
             if c == case or (c.get("leg") == case.get("leg") and c.get("src") == case.get("src") and c.get("obs") == case.get("obs")
                              and [list(x) if isinstance(x, (list, tuple)) else x for x in c.get("spec", [])] == case.get("spec", [])):
-                check(st, problems)
+                check(st, problems, (None, 0, 1, -1))
                 break
     return [{"detail": p} for p in problems[:8]]
